@@ -4,7 +4,7 @@ V=${VERIF_ROOT:-/verif}
 # (never touches /repo; safe while background runs are using it).
 set -u
 seed=$1; shift
-W=/tmp/tryseed-$seed
+W=/tmp/tryseed-$seed-$$
 rm -rf $W; git clone -q /repo $W/repo || exit 2
 git -C $W/repo apply ${VERIF_SEEDS:-$V/seeded}/$seed/patch.diff || { echo "patch does not apply"; exit 2; }
 mkdir -p $W/build
